@@ -223,7 +223,14 @@ def file_hash(paths):
 
 
 def step_driver(cfg):
-    d = cfg["driver"]
+    ok, msg = step_one_driver(cfg["driver"])
+    if ok and cfg.get("driver2"):
+        ok2, msg2 = step_one_driver(cfg["driver2"])
+        return ok2, msg + "; driver2 " + msg2
+    return ok, msg
+
+
+def step_one_driver(d):
     model = os.path.join(OCAML_OUT, d["model"])
     parts = [model, os.path.join(ROOT, "ocaml", "proto.ml"), os.path.join(ROOT, "ocaml", d["src"])]
     for p in parts:
@@ -287,6 +294,8 @@ def run_harness(cfg, prof, mode, tier, seed, file_arg, timeout):
            "--driver", os.path.join(OCAML_OUT, cfg["driver"]["exe"]), "--out", out]
     if file_arg:
         cmd += ["--file", file_arg]
+    if cfg.get("driver2"):
+        cmd += ["--driver2", os.path.join(OCAML_OUT, cfg["driver2"]["exe"])]
     cmd += cfg.get("harness_args", [])
     rc, o = sh(cmd, cwd=ROOT, timeout=timeout)
     if rc != 0 or not os.path.exists(out):
